@@ -56,9 +56,7 @@ func c13Contacts(s, a *sipsp.PContacts, capS int) string {
 	}); d != "" {
 		return d
 	}
-	if capS < 0 {
-		capS = 0
-	}
+	capS = len(s.Vals) // what the object really has (the default array size is the library's business)
 	stored := s.N
 	if stored > capS {
 		stored = capS
